@@ -133,6 +133,8 @@ def main():
   shards = [progs[i::nshards] for i in range(nshards)]
   # the hand-written collision/stress programs go into every shard (8 shards x configs = many hash seeds each)
   stress = list(stress_programs.PROGRAMS)
+  for _n, _src in stress:
+    compile(_src, _n, 'exec')      # a stress program that does not compile would silently drop out of the sweep
   progs = progs + stress
   configs = [dict(hashseed='0', reverse=False, reuse_loader=False),
              dict(hashseed=str(1 + seed), reverse=True, reuse_loader=True)]
